@@ -220,11 +220,65 @@ def run_C05(repo, tier, seed):
             "evaluations": ev, "distinct": len(distinct), "exhaustive": False, "failures": failures, "samples": samples}
 
 
+def check_components(fo, tier, seed):
+    """get_connected_components (assumed contract in the proofs) against an independent union-find, for every
+    assignment of non-empty series sets to 3 (thorough: 4) levels over 3 series and EVERY insertion order of the
+    levels (the function folds over the dictionary in insertion order: a level that bridges two groups formed
+    earlier only occurs for some orders).  Expected: the groups are exactly the classes of 'levels sharing a
+    series, transitively', each once, none with fewer series listed before one with more."""
+    subsets = [frozenset(c) for r in (1, 2, 3) for c in itertools.combinations(range(3), r)]
+    nlev = 3 if tier == "quick" else 4
+    rng = random.Random(seed)
+    ev = 0
+    for assign in itertools.product(subsets, repeat=nlev):
+        orders = list(itertools.permutations(range(nlev)))
+        if tier == "quick" and nlev == 3:
+            pass
+        for order in orders:
+            mapping = {}
+            for lv in order:
+                mapping[10 + lv] = set(assign[lv])
+            ev += 1
+            try:
+                got = fo.get_connected_components(dict((k, set(v)) for k, v in mapping.items()))
+            except Exception as e:
+                return ev, {"key": "C08:components-raised", "input": {"levels": {str(k): sorted(v) for k, v in mapping.items()}, "order": list(mapping)},
+                            "observed": "get_connected_components raised %s: %s" % (type(e).__name__, e)}
+            # independent classes
+            parent = {k: k for k in mapping}
+
+            def find(x):
+                while parent[x] != x:
+                    parent[x] = parent[parent[x]]
+                    x = parent[x]
+                return x
+            keys = list(mapping)
+            for a in keys:
+                for b in keys:
+                    if a < b and mapping[a] & mapping[b]:
+                        parent[find(a)] = find(b)
+            classes = {}
+            for k in keys:
+                classes.setdefault(find(k), set()).add(k)
+            want = sorted(sorted(c) for c in classes.values())
+            have = sorted(sorted(c) for c in got)
+            nser = [len(set().union(*[mapping[k] for k in c])) for c in got]
+            if have != want or any(a < b for a, b in zip(nser, nser[1:])):
+                return ev, {"key": "C08:components-wrong", "input": {"levels": {str(k): sorted(v) for k, v in mapping.items()}, "order": list(mapping)},
+                            "observed": "groups %r (series counts %r); the classes of levels connected through shared series are %r" % (
+                                [list(c) for c in got], nser, want)}
+    return ev, None
+
+
 def run_C08(repo, tier, seed):
     fo = _mod(repo)
     rng = random.Random(seed + 1)
     ev = 0
     failures, samples, distinct = [], [], set()
+    n_cc, bad = check_components(fo, tier, seed)
+    ev += n_cc
+    if bad:
+        failures.append(bad)
     for ranges in structures(tier, seed):
         values = []
         for lo, hi in ranges:
@@ -244,13 +298,20 @@ def run_C08(repo, tier, seed):
             failures.append({"key": "C08:" + r.split(":")[0][:40].replace(" ", "_"), "input": {"level_ranges": ranges, "crossings": values}, "observed": r})
             if len(failures) >= 3:
                 break
-    return {"bound": "overlap structures (connected and disconnected) of 2-3 (thorough: 4) intervals over 5 levels + 2 directed cases",
+    return {"bound": "get_connected_components on every assignment of series sets to 3 (thorough: 4) levels in every insertion order (%d calls); "
+                     "overlap structures (connected and disconnected) of 2-3 (thorough: 4) intervals over 5 levels + 2 directed cases" % n_cc,
             "evaluations": ev, "distinct": len(distinct), "exhaustive": False, "failures": failures, "samples": samples}
 
 
 def replay(repo, rec):
     fo = _mod(repo)
     inp = rec["input"]
+    if "levels" in inp:
+        mapping = {int(k): set(inp["levels"][str(k)]) for k in inp["order"]}
+        got = sorted(sorted(c) for c in fo.get_connected_components(mapping))
+        print("   get_connected_components ->", got)
+        n_cc, bad = check_components(fo, "thorough", 0)
+        return bad is None
     if rec["property"] == "C05":
         r = check_find_offsets(fo, [tuple(x) for x in inp["level_ranges"]], inp["crossings"])
     else:
